@@ -1,18 +1,22 @@
 ------------------------------ MODULE Gen_Err ------------------------------
 (* C09, replay direction: TLC enumerates the cases of spec/sm/ErrContract.tla (per driven
    function: the baseline call and every boundary value of every scalar argument, the others
-   at their baseline) and prints each case with the verdict the contract predicts (violated
-   clauses, admissible error codes).  checks/C09.py turns the cases into command lines of
+   at their baseline; with Pairwise = TRUE also every value of one argument x every value of
+   another one) and prints each case with the verdict the contract predicts (violated clauses,
+   admissible error codes).  checks/C09.py turns the cases into command lines of
    harness/drv_err.c.  The table itself is checked on the way (TableOK): every baseline
    satisfies every clause and every driven clause is violated by at least one case. *)
 EXTENDS ErrContract
 
+CONSTANT Pairwise
+
 VARIABLES gphase, gcase
-Init == gphase = 0 /\ gcase = <<"", "", 0>>
-Next == \/ gphase = 0 /\ gphase' = 1 /\ gcase' \in Cases
+Init == gphase = 0 /\ gcase = <<"", "", 0, "", 0>>
+Next == \/ gphase = 0 /\ gphase' = 1 /\ gcase' \in (IF Pairwise THEN Cases \cup PairCases ELSE Cases)
         \/ /\ gphase = 1 /\ gphase' = 2 /\ gcase' = gcase
-           /\ LET f == gcase[1] a == Args(f, gcase[2], gcase[3]) IN
-              PrintT("@J " \o ToJson([fn |-> f, p |-> gcase[2], v |-> gcase[3], a |-> a,
+           /\ LET f == gcase[1] a == Args2(f, gcase[2], gcase[3], gcase[4], gcase[5]) IN
+              PrintT("@J " \o ToJson([fn |-> f, p |-> gcase[2], v |-> gcase[3], q |-> gcase[4], w |-> gcase[5],
+                                      a |-> a,
                                       viol |-> Violated(f, a), expect |-> Expect(f, a),
                                       secret |-> Contract(f).secret, fault |-> Contract(f).fault,
                                       tamper |-> Contract(f).tamper, auth |-> Contract(f).auth,
